@@ -409,6 +409,9 @@ func (e *engine) enumerate() {
 			set.Bytes(regions)
 			// (iii) integers; quick: only plausible length/offset/count fields
 			set.Ints(mutate.IntSites(s.data, regions, !thorough))
+			// (iii') algorithm identifiers: every registered digest / signature
+			// algorithm OID of the same encoded length at every place one occurs
+			set.OIDs()
 			// (iv) tar header fields
 			if s.Kind == "tar" {
 				var names []string
